@@ -816,8 +816,8 @@ package p9
 //@   panic_ensures[C15,C16] samelocks()
 //@   maypanic
 
-//@ guard fidRef.opened[C07,C16] read readLocked(r) write writeLocked(r)
-//@ guard fidRef.openFlags[C07,C16] read readLocked(r) write writeLocked(r)
+//@ guard fidRef.opened[C07] read readLocked(r) write writeLocked(r)
+//@ guard fidRef.openFlags[C07] read readLocked(r) write writeLocked(r)
 
 //@ func (*tlopen).handle
 //@   use handlerBase dirOpRows localLocks
